@@ -547,6 +547,13 @@ def _parse_float(value: Any) -> float:
     return float(value)
 
 
+def _dump_enum(enum_class: Type[Enum], value: int) -> Union[str, int]:
+    """Name of the enum member, or the number itself if the enum does not define it
+    (proto3 JSON mapping for open enums)."""
+    name = enum_class.try_value(value).name
+    return int(value) if name is None else name
+
+
 def _dump_float(value: float) -> Union[float, str]:
     """Dump the given float to JSON
 
@@ -1602,19 +1609,21 @@ class Message(ABC):
                         if isinstance(value, typing.Iterable) and not isinstance(
                             value, str
                         ):
-                            output[cased_name] = [enum_class(el).name for el in value]
+                            output[cased_name] = [
+                                _dump_enum(enum_class, el) for el in value
+                            ]
                         else:
                             # transparently upgrade single value to repeated
-                            output[cased_name] = [enum_class(value).name]
+                            output[cased_name] = [_dump_enum(enum_class, value)]
                     elif value is None:
                         if include_default_values:
                             output[cased_name] = value
                     elif meta.optional:
                         enum_class = field_types[field_name].__args__[0]
-                        output[cased_name] = enum_class(value).name
+                        output[cased_name] = _dump_enum(enum_class, value)
                     else:
                         enum_class = field_types[field_name]  # noqa
-                        output[cased_name] = enum_class(value).name
+                        output[cased_name] = _dump_enum(enum_class, value)
                 elif meta.proto_type in (TYPE_FLOAT, TYPE_DOUBLE):
                     if field_is_repeated:
                         output[cased_name] = [_dump_float(n) for n in value]
@@ -1675,9 +1684,16 @@ class Message(ABC):
                 elif meta.proto_type == TYPE_ENUM:
                     enum_cls = cls._betterproto.cls_by_field[field_name]
                     if isinstance(value, list):
-                        value = [enum_cls.from_string(e) for e in value]
+                        value = [
+                            enum_cls.from_string(e)
+                            if isinstance(e, str)
+                            else enum_cls.try_value(e)
+                            for e in value
+                        ]
                     elif isinstance(value, str):
                         value = enum_cls.from_string(value)
+                    elif isinstance(value, int):
+                        value = enum_cls.try_value(value)
                 elif meta.proto_type in (TYPE_FLOAT, TYPE_DOUBLE):
                     value = (
                         [_parse_float(n) for n in value]
